@@ -344,9 +344,6 @@ example (w : World) : (runXOpts w [.base (.withEnv (strs ["COMPOSE_PROFILES=dev"
 example : implicitName "cli".toList "default".toList = "cli_default".toList := by decide
 
 
-namespace CV.Name
-open CV CV.Name.Spec
-
 /-! ## which orders matter
 
 `env_any_option_order` (Props/C17.lean) gives the environment of *any* sequence.  The orders that do **not**
